@@ -231,6 +231,9 @@ func c05up4(c *ctx) {
 			return
 		}
 		w.assoc(0)
+		if rep < 2 {
+			w.tunnelNamedWhileBuffering([]string{"release", "del"}[rep])
+		}
 		for cyc := 0; cyc < c.pick(10, 60); cyc++ {
 			var mine []*hsess
 			for k := 0; k < 1+r.Intn(3); k++ {
